@@ -1,7 +1,8 @@
 (* C16 — Reflecting and white surfaces become boundary conditions on the right
    surfaces.  Only restatements; proofs are in C16/Proofs.v. *)
-From Coq Require Import List NArith ZArith Bool String Ascii Lia.
-From T4V Require Import Base.Str C16.Model C16.Proofs C16.Trcl.
+From Coq Require Import List NArith ZArith Bool String Ascii Lia Reals.
+From T4V Require Import Base.Str Base.Scalar C16.Model C16.Proofs C16.Trcl C16.LinkC13.
+From T4V Require C13.Model.
 Import ListNotations.
 Open Scope string_scope.
 
@@ -70,16 +71,20 @@ Proof. exact macrobody_flag_stops_run. Qed.
 Print Assumptions C16_macrobody_flag_stops_run.
 
 (* the written SURF lines: exactly the representatives (after de-duplication)
-   of the TRIPOLI-4 surfaces (sub-surfaces of collections included) used by the
-   volumes of the cells that survive, each with its descriptor *)
+   of the TRIPOLI-4 surfaces (sub-surfaces of collections included, in the
+   cell's equation or in a UNION volume) used by the volumes of the cells that
+   survive, each with its descriptor - plus what a cell deleted after
+   de-duplication leaves behind: remove_unused_volumes makes one pass, so the
+   FICTIVE arguments of its UNION volumes stay in the file *)
 Theorem C16_written_surfaces_exact :
   forall (dedup : bool) (t : table) (cells : list cell) (surfs : list (N * N)) (k d : N),
   geometry dedup t cells = Ok surfs ->
   (In (k, d) surfs <->
    dict_get k (number_items t) = Some d /\
-   exists c k0, In c cells /\ survives dedup (number_items t) (matching_of t) c /\
-                uses (matching_of t) c k0 /\
-                repr_of dedup (number_items t) k0 = Some k).
+   exists c, In c cells /\
+     ((survives dedup (number_items t) (matching_of t) c /\
+       exists k0, uses (matching_of t) c k0 /\ repr_of dedup (number_items t) k0 = Some k) \/
+      leaves dedup (number_items t) (matching_of t) c k)).
 Proof. exact written_surfaces_exact. Qed.
 Print Assumptions C16_written_surfaces_exact.
 
@@ -200,6 +205,13 @@ Proof. exact finish_sound. Qed.
 Print Assumptions C16_finish_sound.
 
 (* ---- decks whose cells may carry TRCL (what the correspondence executes) -- *)
+(* [ids] is the order in which the converter walks the Python set of implicit
+   surfaces 1000 * cell + surface.  Every statement below is for ANY list: no
+   theorem depends on that order ([run_t] is the ascending walk; the
+   correspondence feeds the order Python really used).  What does depend on it
+   in the written file: the order of the ALL_COMPLETE lines of two implicit
+   surfaces, and which fresh id each auxiliary sub-surface gets when several
+   implicit surfaces exist and one is a collection. *)
 
 (* [run] is [run_t] on decks whose cells are all converted and carry no TRCL,
    so the statements about [run] above are statements about [run_t] *)
@@ -213,10 +225,10 @@ Print Assumptions C16_run_t_plain.
    implicit surfaces 1000 * cell + surface, then the copies made for the
    literals of cells with TRCL; all keys distinct; every addition carries the
    flag (and part count) of a parsed card *)
-Theorem C16_expanded_table :
+Theorem C16_expanded_table : forall (ids : list N),
   forall (t : table) (cells : list (bool * cell)) (t' : table) (cs : list tcell),
   NoDup (map fst t) ->
-  expand_table cs t = Ok (cells, t') ->
+  expand_table_with ids cs t = Ok (cells, t') ->
   NoDup (map fst t') /\
   (forall k e, In (k, e) t -> In (k, e) t') /\
   (forall k e, In (k, e) t' -> inherits t e).
@@ -226,14 +238,14 @@ Print Assumptions C16_expanded_table.
 (* the main statement with TRCL, no guard, for every flagged entry of the
    expanded dictionary (a parsed card or the copy made for a literal of a cell
    with TRCL) that bounds a converted cell that survives *)
-Theorem C16_bc_designates_present_same_locus_trcl :
+Theorem C16_bc_designates_present_same_locus_trcl : forall (ids : list N),
   forall (cfg : config) (cards : list scard) (tcells : list tcell) (t : table)
          (cells : list (bool * cell)) (t' : table)
          (surfs : list (N * N)) (bcs : list (kind * N)) (k : N) (e : entry),
   skip_bc cfg = false ->
   parse_cards cards [] = Ok t ->
-  expand_table tcells t = Ok (cells, t') ->
-  run_t cfg cards tcells = Ok (surfs, bcs) ->
+  expand_table_with ids tcells t = Ok (cells, t') ->
+  run_t_with ids cfg cards tcells = Ok (surfs, bcs) ->
   In (k, e) t' -> (e_flag e = "*" \/ e_flag e = "+") ->
   (exists c, In c (converted cells) /\
              survives (negb (skip_dedup cfg)) (number_items t') (matching_of t') c /\
@@ -243,14 +255,14 @@ Theorem C16_bc_designates_present_same_locus_trcl :
 Proof. exact bc_designates_present_same_locus_trcl. Qed.
 Print Assumptions C16_bc_designates_present_same_locus_trcl.
 
-Theorem C16_bc_entries_designate_written_trcl :
+Theorem C16_bc_entries_designate_written_trcl : forall (ids : list N),
   forall (cfg : config) (cards : list scard) (tcells : list tcell) (t : table)
          (cells : list (bool * cell)) (t' : table)
          (surfs : list (N * N)) (bcs : list (kind * N)),
   skip_bc cfg = false ->
   parse_cards cards [] = Ok t ->
-  expand_table tcells t = Ok (cells, t') ->
-  run_t cfg cards tcells = Ok (surfs, bcs) ->
+  expand_table_with ids tcells t = Ok (cells, t') ->
+  run_t_with ids cfg cards tcells = Ok (surfs, bcs) ->
   NoDup (map snd bcs) /\
   forall kd k', In (kd, k') bcs ->
     exists k e, In (k, e) t' /\ inherits t e /\ e_flag e <> "" /\
@@ -259,65 +271,65 @@ Theorem C16_bc_entries_designate_written_trcl :
 Proof. exact bc_entries_designate_written_trcl. Qed.
 Print Assumptions C16_bc_entries_designate_written_trcl.
 
-Theorem C16_conflicting_flags_rejected_trcl :
+Theorem C16_conflicting_flags_rejected_trcl : forall (ids : list N),
   forall (cfg : config) (cards : list scard) (tcells : list tcell) (t : table)
          (cells : list (bool * cell)) (t' : table) (surfs : list (N * N))
          (k1 : N) (e1 : entry) (k2 : N) (e2 : entry),
   skip_bc cfg = false ->
   parse_cards cards [] = Ok t -> proper t ->
-  expand_table tcells t = Ok (cells, t') ->
+  expand_table_with ids tcells t = Ok (cells, t') ->
   geometry (negb (skip_dedup cfg)) t' (converted cells) = Ok surfs ->
   In (k1, e1) t' -> e_flag e1 = "*" -> In (k2, e2) t' -> e_flag e2 = "+" ->
   rep (negb (skip_dedup cfg)) (number_items t') k1 =
     rep (negb (skip_dedup cfg)) (number_items t') k2 ->
   In (rep (negb (skip_dedup cfg)) (number_items t') k1) (map fst surfs) ->
-  run_t cfg cards tcells = Err EValue.
+  run_t_with ids cfg cards tcells = Err EValue.
 Proof. exact conflicting_flags_rejected_trcl. Qed.
 Print Assumptions C16_conflicting_flags_rejected_trcl.
 
 (* every literal of a cell with TRCL gets a copy in the dictionary that
    carries the flag of the surface it names and the transformed descriptor *)
-Theorem C16_trcl_copy_in_table :
+Theorem C16_trcl_copy_in_table : forall (ids : list N),
   forall (cfg : config) (cards : list scard) (tcells : list tcell) (out : output)
          (c : tcell) (l : lit),
-  run_t cfg cards tcells = Ok out ->
+  run_t_with ids cfg cards tcells = Ok out ->
   In c tcells -> tc_trcl c = true -> In l (tc_lits c) ->
   exists t cells t' e k',
     parse_cards cards [] = Ok t /\
-    expand_table tcells t = Ok (cells, t') /\
+    expand_table_with ids tcells t = Ok (cells, t') /\
     dict_get (Z.abs_N (l_z l)) t' = Some e /\
     In (k', mkE (e_flag e) (e_mcnp e) (l_cls l) (l_aux l) (l_sides l)) t'.
 Proof. exact trcl_copy_in_table. Qed.
 Print Assumptions C16_trcl_copy_in_table.
 
-Theorem C16_bc_designates_keys_trcl :
+Theorem C16_bc_designates_keys_trcl : forall (ids : list N),
   forall (cfg : config) (cards : list scard) (tcells : list tcell) (t : table)
          (cells : list (bool * cell)) (t' : table)
          (surfs : list (N * N)) (bcs : list (kind * N)) (kd : kind) (k' : N),
   skip_bc cfg = false ->
   parse_cards cards [] = Ok t ->
-  expand_table tcells t = Ok (cells, t') ->
-  run_t cfg cards tcells = Ok (surfs, bcs) -> In (kd, k') bcs ->
+  expand_table_with ids tcells t = Ok (cells, t') ->
+  run_t_with ids cfg cards tcells = Ok (surfs, bcs) -> In (kd, k') bcs ->
   In k' (map fst t') /\ (k' <= max_key t')%N.
 Proof. exact bc_designates_keys_trcl. Qed.
 Print Assumptions C16_bc_designates_keys_trcl.
 
 (* unflagged surfaces yield none: a deck without a flagged card has no entry,
    whatever its cells and their TRCL *)
-Theorem C16_unflagged_deck_no_entries :
+Theorem C16_unflagged_deck_no_entries : forall (ids : list N),
   forall (cfg : config) (cards : list scard) (tcells : list tcell)
          (surfs : list (N * N)) (bcs : list (kind * N)),
   (forall t k e, parse_cards cards [] = Ok t -> In (k, e) t -> e_flag e = "") ->
-  run_t cfg cards tcells = Ok (surfs, bcs) -> bcs = [].
+  run_t_with ids cfg cards tcells = Ok (surfs, bcs) -> bcs = [].
 Proof. exact unflagged_deck_no_entries. Qed.
 Print Assumptions C16_unflagged_deck_no_entries.
 
 (* a flag on a macrobody stops the run, with TRCL cells too *)
-Theorem C16_macrobody_flag_stops_run_t :
+Theorem C16_macrobody_flag_stops_run_t : forall (ids : list N),
   forall (cfg : config) (cards : list scard) (tcells : list tcell) (t : table) (k : N) (e : entry),
   skip_bc cfg = false -> parse_cards cards [] = Ok t ->
   In (k, e) t -> e_flag e <> "" -> (1 < e_mcnp e)%nat ->
-  exists err, run_t cfg cards tcells = Err err.
+  exists err, run_t_with ids cfg cards tcells = Err err.
 Proof. exact macrobody_flag_stops_run_t. Qed.
 Print Assumptions C16_macrobody_flag_stops_run_t.
 
@@ -361,7 +373,7 @@ Proof.
   split; [reflexivity|].
   split; [|vm_compute; reflexivity].
   exists (1%N, [[(-1)%Z; 3%Z; (-9)%Z]]). split; [left; reflexivity|]. split.
-  - eexists. vm_compute. reflexivity.
+  - eexists. eexists. vm_compute. reflexivity.
   - exists [(-1)%Z; 3%Z; (-9)%Z], 3%Z. split; [left; reflexivity|].
     split; [right; left; reflexivity|]. split; [discriminate|reflexivity].
 Qed.
@@ -385,7 +397,7 @@ Proof.
   split; [do 4 right; left; reflexivity|].
   split; [reflexivity|]. split; [reflexivity|].
   exists (1%N, [[(-6)%Z; 7%Z; (-8)%Z]]). split; [left; reflexivity|]. split.
-  - eexists. vm_compute. reflexivity.
+  - eexists. eexists. vm_compute. reflexivity.
   - exists [(-6)%Z; 7%Z; (-8)%Z], 7%Z. split; [left; reflexivity|].
     split; [right; left; reflexivity|]. split; [discriminate|reflexivity].
 Qed.
@@ -458,7 +470,7 @@ Proof.
   split; [vm_compute; reflexivity|].
   split; [right; left; reflexivity|]. split; [reflexivity|]. split; [reflexivity|].
   exists (1%N, [[(-7)%Z; 3%Z; (-9)%Z]]). split; [left; reflexivity|]. split.
-  - eexists. vm_compute. reflexivity.
+  - eexists. eexists. vm_compute. reflexivity.
   - exists [(-7)%Z; 3%Z; (-9)%Z], (-7)%Z. split; [left; reflexivity|].
     split; [left; reflexivity|]. split; [discriminate|reflexivity].
 Qed.
@@ -481,4 +493,137 @@ Proof.
   split; [vm_compute; reflexivity|]. split; [vm_compute; reflexivity|].
   split; [do 3 right; left; reflexivity|]. split; [reflexivity|]. split; [reflexivity|].
   vm_compute. reflexivity.
+Qed.
+
+(* ======================================================================== *)
+(* Linked with C13 (read-only).  C13.Model.finish is C13's model of the part of
+   convertMCNPGeometry that decides the SURF lines, for ARBITRARY volume tables
+   (equations with UNION / INTE operators and FICTIVE volumes: what FILL
+   development, unions and complements produce) over the real SurfaceT4
+   descriptors.  [block13] puts C16's block on top of it: the renumbering is
+   C13's, surf_used is C13's list of written ids, the dictionary [l] is C16's
+   conversionBoundCond ([bc_entries] of any table with distinct keys: cards,
+   implicit surfaces, TRCL and FILL copies).  The function run is C16's own:   *)
+Theorem C16_merge_entries_gen : forall dedup nb used l acc,
+  merge_entries dedup nb used l acc = merge_gen (rep dedup nb) used l acc.
+Proof. exact merge_entries_gen. Qed.
+Print Assumptions C16_merge_entries_gen.
+
+(* the main statement, linked: a flagged surface whose representative (C13's
+   renumbering) is used by a written volume has exactly one entry, of its kind,
+   on that representative, and the representative is kept in the writer's table
+   with the SAME DESCRIPTOR OVER THE REALS as the flagged surface (C13: only
+   equal descriptors are merged, C13_desc_eqb_sound) - the same locus, not just
+   the same class of a harness table *)
+Theorem C16_bc_designates_present_same_locus_linked :
+  forall (t : table) (surfs : list (Z * C13.Model.desc R)) (volus : list (Z * C13.Model.volu))
+         (u0 u1 : Z) (skip : bool),
+  NoDup (map fst t) ->
+  (forall k d, In (k, d) surfs -> (0 < k)%Z) ->
+  (forall k e, In (k, e) t -> e_flag e <> "" -> In (Z.of_N k) (map fst surfs)) ->
+  forall (l : list (kind * N)) (w : list Z) (bcs : list (kind * N)),
+  bc_entries t = Ok l ->
+  block13 RS skip surfs volus u0 u1 l = Some (w, Ok bcs) ->
+  forall k e, In (k, e) t -> (e_flag e = "*" \/ e_flag e = "+") ->
+  let k' := rep13 (ren_of RS skip surfs) k in
+  In (Z.of_N k') w ->
+  In (kind_of (e_flag e), k') bcs /\ count_key k' bcs = 1%nat /\
+  exists d s' v3,
+    C13.Model.finish RS skip surfs volus u0 u1 = C13.Model.Ok (s', v3, w) /\
+    In (Z.of_N k, d) surfs /\ In (Z.of_N k', d) s'.
+Proof.
+  intros t surfs volus u0 u1 skip Hnd Hpos Hknown l w bcs Hc Hr k e Hin Hf k' Hw.
+  eapply linked_designates; eauto.
+Qed.
+Print Assumptions C16_bc_designates_present_same_locus_linked.
+
+(* the converse, linked: every entry designates a written SURF whose descriptor
+   over the reals is that of a flagged surface of the entry's kind; no two
+   entries designate the same SURF *)
+Theorem C16_bc_entries_designate_written_linked :
+  forall (t : table) (surfs : list (Z * C13.Model.desc R)) (volus : list (Z * C13.Model.volu))
+         (u0 u1 : Z) (skip : bool),
+  NoDup (map fst t) ->
+  (forall k d, In (k, d) surfs -> (0 < k)%Z) ->
+  (forall k e, In (k, e) t -> e_flag e <> "" -> In (Z.of_N k) (map fst surfs)) ->
+  forall (l : list (kind * N)) (w : list Z) (bcs : list (kind * N)),
+  bc_entries t = Ok l ->
+  block13 RS skip surfs volus u0 u1 l = Some (w, Ok bcs) ->
+  NoDup (map snd bcs) /\
+  forall kd k', In (kd, k') bcs ->
+    In (Z.of_N k') w /\
+    exists k e d s' v3,
+      C13.Model.finish RS skip surfs volus u0 u1 = C13.Model.Ok (s', v3, w) /\
+      In (k, e) t /\ e_flag e <> "" /\
+      (e_flag e = "*" -> kd = Reflection) /\ (e_flag e = "+" -> kd = Cosinus) /\
+      In (Z.of_N k, d) surfs /\ In (Z.of_N k', d) s'.
+Proof.
+  intros t surfs volus u0 u1 skip Hnd Hpos Hknown l w bcs Hc Hr.
+  eapply linked_sound; eauto.
+Qed.
+Print Assumptions C16_bc_entries_designate_written_linked.
+
+(* two flagged surfaces of different kinds with the same written
+   representative: the block is a ValueError, whatever the volumes and the
+   scalar type *)
+Theorem C16_conflicting_flags_rejected_linked :
+  forall (T : Type) (S : Scalar T) (skip : bool) (surfs : list (Z * C13.Model.desc T))
+         (volus : list (Z * C13.Model.volu)) (u0 u1 : Z) (l : list (kind * N)) (w : list Z)
+         (out : res (list (kind * N))) (k1 k2 : N),
+  block13 S skip surfs volus u0 u1 l = Some (w, out) ->
+  In (Reflection, k1) l -> In (Cosinus, k2) l ->
+  rep13 (ren_of S skip surfs) k1 = rep13 (ren_of S skip surfs) k2 ->
+  In (Z.of_N (rep13 (ren_of S skip surfs) k1)) w ->
+  out = Err EValue.
+Proof. exact @block13_conflict. Qed.
+Print Assumptions C16_conflicting_flags_rejected_linked.
+
+(* non-vacuity of the linked statements on a FILL-shaped volume table: the
+   filled cell is the FICTIVE volume 10 (PLUS 1 MINUS 4), the universe element
+   is volume 6 (MINUS 3, INTE 10); *2 and *3 coincide.  Surface 3 is merged into
+   2, the block has the single entry 2, and SURF 1 2 4 are written *)
+Example C16_example_linked :
+  exists l,
+    bc_entries ex_table = Ok l /\
+    block13 RS false ex_surfs ex_volus 8 9 l =
+      Some ([1; 2; 4]%Z, Ok [(Reflection, 2%N)]) /\
+    rep13 (ren_of RS false ex_surfs) 3 = 2%N /\
+    NoDup (map fst ex_table) /\
+    (forall k d, In (k, d) ex_surfs -> (0 < k)%Z) /\
+    (forall k e, In (k, e) ex_table -> e_flag e <> "" -> In (Z.of_N k) (map fst ex_surfs)).
+Proof.
+  eexists. split; [vm_compute; reflexivity|].
+  split; [vm_compute; reflexivity|].
+  split; [vm_compute; reflexivity|].
+  split; [repeat constructor; cbn; intuition discriminate|].
+  split.
+  - intros k d H. repeat (destruct H as [H|H]; [inversion H; lia|]). destruct H.
+  - intros k e H Hf. repeat (destruct H as [H|H]; [inversion H; subst; cbn; auto 10|]).
+    destruct H.
+Qed.
+
+(* positive literal of a collection (a UNION volume): *7 KZ 0 1 1, cells
+   "-1 7" and "-1 8 7" with 8 a duplicate of 1.  With de-duplication the second
+   cell dies (1 on both sides), its UNION volume goes, the FICTIVE volume of the
+   cone's plane (id 10) stays behind; the first cell keeps the cone: one entry,
+   on 7.  Without de-duplication both cells live *)
+Example C16_example_union :
+  let cards := [mkS "1" 1 5 [] []; mkS "8" 1 5 [] []; mkS "*7" 1 14 [8%N] [true; false]] in
+  let cells := [(1%N, [[(-1)%Z; 7%Z]]); (2%N, [[(-1)%Z; 8%Z; 7%Z]])] in
+  exists t,
+    parse_cards cards [] = Ok t /\
+    run (mkCfg false false) cards cells = Ok ([(1, 5); (7, 14); (9, 8)]%N, [(Reflection, 7%N)]) /\
+    run (mkCfg true false) cards cells =
+      Ok ([(1, 5); (7, 14); (8, 5); (9, 8)]%N, [(Reflection, 7%N)]) /\
+    survives true (number_items t) (matching_of t) (1%N, [[(-1)%Z; 7%Z]]) /\
+    leaves true (number_items t) (matching_of t) (2%N, [[(-1)%Z; 8%Z; 7%Z]]) 9 /\
+    ~ survives true (number_items t) (matching_of t) (2%N, [[(-1)%Z; 8%Z; 7%Z]]).
+Proof.
+  cbv zeta. eexists.
+  split; [vm_compute; reflexivity|].
+  split; [vm_compute; reflexivity|].
+  split; [vm_compute; reflexivity|].
+  split; [eexists; eexists; vm_compute; reflexivity|].
+  split; [eexists; eexists; split; [vm_compute; reflexivity|left; reflexivity]|].
+  intros [ids [left H]]. vm_compute in H. discriminate.
 Qed.
